@@ -76,6 +76,22 @@ pub fn crc_vectors(out: &mut dyn Write, tier: &str, seed: u64) -> J {
         emit(crc_rec(&m), out);
         n += 1;
     }
+    // a record followed by its own CRC-16 and zero padding (the remainder is 0 from there on): every record length 0..=40
+    // with 0..=16 padding bytes
+    for len in 0..=40usize {
+        let m: Vec<u8> = (0..len).map(|_| rng.next() as u8).collect();
+        let c = crc16_ref(&m).to_be_bytes();
+        for pad in 0..=16usize {
+            if quick && pad % 3 == 1 && len % 2 == 1 {
+                continue;
+            }
+            let mut x = m.clone();
+            x.extend_from_slice(&c);
+            x.extend(std::iter::repeat(0u8).take(pad));
+            emit(crc_rec(&x), out);
+            n += 1;
+        }
+    }
     // native: every three-byte message (= every (running remainder, next byte) pair), library vs reference
     let mut mism: Vec<J> = Vec::new();
     let mut cnt = 0u64;
@@ -97,7 +113,10 @@ pub fn crc_vectors(out: &mut dyn Write, tier: &str, seed: u64) -> J {
         let mut m: Vec<u8> = (0..len).map(|_| rng.next() as u8).collect();
         let c = crc16(&m);
         m.extend_from_slice(&c.to_be_bytes());
-        if crc16(&m) != 0 || crc_at_alignments(&m).1 != 0 {
+        // ... and with zero padding behind the checksum the remainder stays 0
+        let mut padded = m.clone();
+        padded.extend(std::iter::repeat(0u8).take(rng.below(24) as usize));
+        if crc16(&m) != 0 || crc_at_alignments(&m).1 != 0 || crc16(&padded) != 0 || crc16(&padded) != crc16_ref(&padded) {
             zero_fail += 1;
             if mism.len() < 5 {
                 mism.push(json!(m));
@@ -296,6 +315,18 @@ pub fn codec_vectors(out: &mut dyn Write, tier: &str, seed: u64) -> J {
         if let Some(c) = char::from_u32(cp) {
             for s in [format!("{}", c), format!("A{}", c), format!("AB.{}", c), format!("{}BCDEFGH.TXT", c), format!("ABCDEFG{}.TX{}", c, c)] {
                 emit(sfn_rec(&s), out, &mut n);
+            }
+        }
+    }
+    // every pair of characters of the upper half of ISO-8859-1 next to each other (bytes that happen to form UTF-8 sequences)
+    for a in 0x80u32..=0xFF {
+        for b in 0x80u32..=0xFF {
+            let (ca, cb) = (char::from_u32(a).unwrap(), char::from_u32(b).unwrap());
+            emit(sfn_rec(&format!("{}{}", ca, cb)), out, &mut n);
+            if !quick || (a + b) % 7 == 0 {
+                emit(sfn_rec(&format!("A{}{}.T", ca, cb)), out, &mut n);
+                emit(sfn_rec(&format!("AB.{}{}", ca, cb)), out, &mut n);
+                emit(sfn_rec(&format!("{}{}{}", ca, cb, ca)), out, &mut n);
             }
         }
     }
